@@ -44,7 +44,7 @@ PROTO_NOTE = (TRUST_COMMON + ' Closure/iterator-adapter bodies of the engine (cl
               'as assumed contracts (R5 stubs): '
               'sort_operation_deque, '
               'complete_operation_with_result/_error; the bounded engine E-B runs the real functions against those contracts on a stated '
-              'small scope. Session handling at CONNACK is verified under A-HANDSHAKE/A-OPS (DESIGN.md 6), evaluated by E-B at every CONNACK. '
+              'small scope. The preconditions of session handling at CONNACK (formerly assumption A-HANDSHAKE) follow from the entry-point invariant H1-H6 (DESIGN.md 2), established by new()/reset() and preserved by the three entry points; A-OPS (fewer than 2^32 operations tracked at once) remains. '
               'Encoder/Decoder/alias-resolver are opaque shims inside the engine unit.')
 
 
